@@ -141,6 +141,21 @@ def parseIfRange (value : Option Str) (dateOf : Option Int) : IfRange :=
         | some (e, _) => .etag e
         | none => .none
 
+/-- `value.lstrip().startswith(('"', 'W/"', 'w/"'))`: the value is spelled like an entity tag
+(31f8ea0: such a value is never offered to `parse_date`, which would accept a quoted date) -/
+def looksLikeEtag (value : Str) : Bool :=
+  match value.dropWhile Py.isSpace with
+  | '"' :: _ => true
+  | 'W' :: '/' :: '"' :: _ => true
+  | 'w' :: '/' :: '"' :: _ => true
+  | _ => false
+
+/-- `parse_if_range_header(value)` as the code calls it: `dateOf` = `parse_date(value)`, consulted
+only when the value is not spelled like an entity tag. (`parseIfRange` itself keeps its meaning
+"given this date"; Props/C11T relates it to the translated source.) -/
+def parseIfRangeHeader (value : Option Str) (dateOf : Option Int) : IfRange :=
+  parseIfRange value (if (value.map looksLikeEtag).getD false then none else dateOf)
+
 /-- the request side of a conditional evaluation -/
 structure CondReq where
   /-- `Range` header text -/
@@ -167,7 +182,7 @@ def isResourceModified (r : CondReq) (etag : Option Str) (lastModified : Option 
     (ignoreIfRange : Bool) : Bool :=
   let lm : Option Int := lastModified.map (·.1)
   let ifr : Option IfRange :=
-    if !ignoreIfRange && r.range.isSome then some (parseIfRange r.ifRange r.ifRangeDate) else none
+    if !ignoreIfRange && r.range.isSome then some (parseIfRangeHeader r.ifRange r.ifRangeDate) else none
   let modifiedSince : Option Int :=
     match ifr with
     | some (.date d) => some d
